@@ -162,14 +162,18 @@ func RacePass(c *fw.Ctx, prop string) {
 	}
 	// the pass runs free: a thread that blocks for ever (e.g. on a lock a change to the repository leaks) would
 	// hold up the whole check, so the child is given a generous limit and what it printed so far is used
-	ctx, cancel := context.WithTimeout(context.Background(), 240*time.Second)
+	limit := 240 * time.Second
+	if c.Thorough() {
+		limit = 900 * time.Second // the other workers keep every core busy for the whole run
+	}
+	ctx, cancel := context.WithTimeout(context.Background(), limit)
 	defer cancel()
 	cmd := exec.CommandContext(ctx, bin, "child", "racepass", prop, c.Dir)
 	cmd.Env = append(os.Environ(), "GORACE=halt_on_error=0 exitcode=0", "GOMAXPROCS=16")
 	out, err := cmd.CombinedOutput()
 	text := string(out)
 	if ctx.Err() != nil {
-		c.R.Notes = append(c.R.Notes, "the free-running race pass did not finish within 240 s (a thread blocked); its reports up to then are used")
+		c.R.Notes = append(c.R.Notes, fmt.Sprintf("the free-running race pass did not finish within %v (a thread blocked); its reports up to then are used", limit))
 		c.Count("race_pass_stalled", 1)
 		err = nil
 	}
